@@ -177,11 +177,22 @@ impl<const K: usize> Table<K> {
                 free
             }
         };
-        self.used[slot] = true;
-        self.klen[slot] = key.len() as u16;
-        bytes_copy(&mut self.key[slot], key);
-        self.vlen[slot] = val.len() as u8;
-        bytes_copy(&mut self.val[slot], val);
+        // The slot may be a symbolic value for the model checker (it depends on comparisons with
+        // keys that contain arbitrary bytes).  A write at a symbolic row index of the key matrix is
+        // catastrophic for CBMC's symbolic executor (measured: 8 copies of 250 bytes into a row chosen
+        // by a symbolic value: > 20 min, against 5 s for a constant row), so every row is visited with
+        // a constant index and written under the guard `i == slot`.
+        let mut i = 0;
+        while i < CAP {
+            if i == slot {
+                self.used[i] = true;
+                self.klen[i] = key.len() as u16;
+                bytes_copy(&mut self.key[i], key);
+                self.vlen[i] = val.len() as u8;
+                bytes_copy(&mut self.val[i], val);
+            }
+            i += 1;
+        }
         Ok(())
     }
     fn delete(&mut self, key: &[u8]) -> bool {
@@ -189,8 +200,14 @@ impl<const K: usize> Table<K> {
             return false;
         }
         match self.find(key) {
-            Some(i) => {
-                self.used[i] = false;
+            Some(slot) => {
+                let mut i = 0;
+                while i < CAP {
+                    if i == slot {
+                        self.used[i] = false;
+                    }
+                    i += 1;
+                }
                 true
             }
             None => false,
